@@ -200,6 +200,13 @@ def run_impl(case):
             lines.append('650 OK')
             w.send('\n'.join(lines))
             res = ['event', bool(cfg.needs_save()), snapshot()]
+        elif k == 'copy':
+            # config.<dst> = config.<src>: the very object the read returns is assigned
+            try:
+                setattr(cfg, op[1], getattr(cfg, op[2]))
+                res = ['ok']
+            except Exception as e:
+                res = ['raised', exc_kind(e)]
         elif k == 'socks':
             try:
                 ep = cfg.socks_endpoint(Reactor())
@@ -267,6 +274,8 @@ def coq_op(op):
         return C('OpEvent', L(Pair(B(key), Opt(None if v is None else B(v))) for key, v in op[1]))
     if k == 'socks':
         return 'OpSocks'
+    if k == 'copy':
+        return C('OpCopy', B(op[1]), B(op[2]))
     raise ValueError(op)
 
 
@@ -484,6 +493,7 @@ class Sim(object):
         self.pend = collections.OrderedDict()
         self.det = set()
         self.f1 = self.f3 = False
+        self.fs = False      # envelope flag: a copy whose source had a pending change
 
     def clone(self):
         s = Sim.__new__(Sim)
@@ -493,6 +503,7 @@ class Sim(object):
         s.pend = collections.OrderedDict((k, (v[0], list(v[1]) if v[0] == 'l' else v[1])) for k, v in self.pend.items())
         s.det = set(self.det)
         s.f1, s.f3 = self.f1, self.f3
+        s.fs = self.fs
         return s
 
     def find(self, name):
@@ -535,6 +546,14 @@ class Sim(object):
             if iv is not None:
                 self.pend[f[0]] = iv
                 self.det.add(f[0])
+        elif k == 'copy':
+            fd, fs = self.find(op[1]), self.find(op[2])
+            if fd is None or fs is None:
+                return
+            if fs[0] in self.pend:
+                self.fs = True
+            self.pend[fd[0]] = ('l', self.cur_list(*fs))
+            self.det.add(fd[0])
         elif k == 'listop':
             f = self.find(op[1])
             if f is None:
